@@ -124,7 +124,7 @@ def qualname(node: ast.AST) -> str:
 
 
 class Repo:
-    def __init__(self, root: str = '/repo', overlay: dict | None = None):
+    def __init__(self, root: str = '/repo', overlay: dict | None = None, normalise: bool = True):
         """overlay: {relpath: source text} replaces the on-disk content of those files (used by the checker's
         self-validation to analyse mutants / rewrites of the current tree without writing them anywhere)."""
         self.root = root
@@ -157,6 +157,10 @@ class Repo:
         if len(self.modules) < MIN_FILES:
             raise Unresolved(f'only {len(self.modules)} python files under {pkgroot}, expected >= {MIN_FILES}')
         self._classes: dict[str, tuple[Module, ast.ClassDef]] | None = None
+        self.vocab_log: list[str] = []
+        if normalise:
+            from .vocab import normalise as _norm
+            self.vocab_log = _norm(self)
 
     # ---- lookup -------------------------------------------------------------------------------------------------
 
